@@ -94,7 +94,7 @@ BITOR_PROOF = """        proof {
         }"""
 
 
-def generate(enums, kinds):
+def generate(enums, kinds, bulk_kinds=()):
     bases = []
     for v, fs in enums['RegOp']:
         b, form = split_variant(v)
@@ -148,6 +148,7 @@ def generate(enums, kinds):
     lemmas = ['lemma_cnt_mono']
     canaries = ['TracingVmEval::resize_slots']
     extra_prelude = []
+    attrs = []
     for cfg in kinds:
         A(sem_text(enums, bases, cfg))
         sub = lambda t: t.replace('@P@', cfg['p']).replace('@T@', cfg['T']).replace('@EV@', cfg['ev']).replace('@ENVPROOF@', cfg['envproof']).replace('@ENVINV@', cfg['envinv'])
@@ -160,8 +161,47 @@ def generate(enums, kinds):
         lemmas.append(sub('lemma_@P@run_shape'))
         canaries.append(cfg['ev'] + '::eval')
         extra_prelude.append(cfg['prelude'](bases))
-    prelude = PRELUDE0.replace('/*@F32SPECS@*/', f32specs) + '\n' + '\n'.join(extra_prelude) + '\n' + '\n'.join(L)
-    return {'specs': specs, 'proofs': proofs, 'loops': loops, 'prelude': prelude, 'exec_fns': exec_fns, 'lemmas': lemmas, 'canaries': canaries}
+    if bulk_kinds:
+        A(BULK_SHARED)
+        ds = ['pub open spec fn dst_slot(op: RegOp) -> int {\n    match op {']
+        for v, fs in enums['RegOp']:
+            if v == 'Output':
+                ds.append('        RegOp::Output(r, i) => -1,')
+            elif v == 'Store':
+                ds.append('        RegOp::Store(r, m) => m as int,')
+            else:
+                ds.append('        RegOp::%s(o, %s) => o as int,' % (v, ', '.join('_' for _ in fs[1:])))
+        ds.append('    }\n}')
+        A('\n'.join(ds))
+        for k_, (ret, st) in BULK_SPECS.items():
+            specs[k_] = (ret, st)
+        exec_fns += ['BulkVmEval::resize_slots', 'BulkOutput::new', 'copy_prefix']
+        canaries.append('BulkVmEval::resize_slots')
+        for fld, n_, g_, gv in (('slots', 'tape.asm.slot_count as usize', 'out', 'old(self).out@'), ('out', 'tape.ssa.output_count', 'slots', 'slots_')):
+            loops.append(('BulkVmEval::resize_slots', 'while j_ < self.%s.len()' % fld, RESIZE_INV.replace('@F@', fld).replace('@N@', n_).replace('@G@', g_).replace('@GV@', gv)))
+        proofs.append(('BulkVmEval::resize_slots', 'while j_ < self.out.len()', 0, True, '        let ghost slots_ = self.slots@;'))
+    for cfg in bulk_kinds:
+        sub = lambda t: t.replace('@P@', cfg['p']).replace('@T@', cfg['T']).replace('@ENVPROOF@', cfg['envproof']).replace('@ENVINV@', cfg['envinv'])
+        if cfg.get('own_sem'):
+            A(sem_text(enums, bases, cfg))
+            A(sub(PER_KIND_STATIC.split('/// the run keeps the shape')[0]))   # run + init_ok only (no choice cursor in bulk evaluation)
+            extra_prelude.append(cfg['prelude'](bases))
+        A(sub(BULK_KIND))
+        q = cfg['ev'] + '::eval'
+        specs[q] = ("r: Result<BulkOutput<'_, %s>, BulkEvalError>" % cfg['T'], sub(BULK_EVAL_SPEC))
+        proofs.append((q, '$START', 0, False, '        let ghost tape0 = *tape;'))
+        proofs.append((q, 'self.0.resize_slots(tape, size);', 0, False, sub(BULK_FN_START)))
+        proofs.append((q, 'let op = tape.asm.tape[i_];', 0, False, sub(BULK_AFTER_OP)))
+        proofs.append((q, 'copy_prefix(&mut self.0.out[i as usize], &self.0.slots[arg as usize][0..size], size);   // R-copyprefix', 0, False, sub(BULK_OUTPUT_HINT)))
+        proofs.append((q, '        let ret_: Result<BulkOutput', 0, True, sub(BULK_TAIL)))
+        proofs.append((q, '        /*@tail*/', 0, False, sub(BULK_TAIL2)))
+        loops.append((q, 'while i_ > 0', sub(BULK_OUTER_INV)))
+        exec_fns.append(q)
+        lemmas += [sub('lemma_@P@step_indep'), sub('lemma_@P@bulk_arm')]
+        canaries.append(q)
+        attrs.append((q, '#[verifier::loop_isolation(false)]'))
+    prelude = PRELUDE0.replace('/*@F32SPECS@*/', f32specs) + '\n' + '\n'.join(extra_prelude) + '\n' + '\n'.join(L) + (BULK_ENV if bulk_kinds else '')
+    return {'specs': specs, 'proofs': proofs, 'loops': loops, 'prelude': prelude, 'exec_fns': exec_fns, 'lemmas': lemmas, 'canaries': canaries, 'attrs': attrs}
 
 
 def sem_text(enums, bases, cfg):
@@ -183,10 +223,11 @@ def sem_text(enums, bases, cfg):
         if b not in cfg['BIN']:
             raise ExtractError('no reference meaning for binary opcode %s (%s)' % (b, T))
     k_of = lambda b: bases.index(b)
-    fill = lambda t, b: t.replace('@K@', str(k_of(b)))
+    fill = lambda t, b: t.replace('@K@', str(k_of(b))).replace('%DIV%', str(k_of('Div'))).replace('%MUL%', str(k_of('Mul')))
     A('pub open spec fn %sun(k: int, x: %s) -> %s {\n    ' % (P, T, T) + ' else '.join('if k == %d { %s }' % (k_of(b), fill(cfg['UN'][b], b)) for b in un_used) + ' else { x }\n}')
     A('pub open spec fn %sbin(k: int, a: %s, b: %s) -> %s {\n    ' % (P, T, T, T) + ' else '.join('if k == %d { %s }' % (k_of(b), fill(cfg['BIN'][b], b)) for b in bin_used) + ' else { a }\n}')
-    A('pub open spec fn %sch(k: int, a: %s, b: %s) -> Choice {\n    ' % (P, T, T) + ' else '.join('if k == %d { %s }' % (k_of(b), fill(cfg['CH'][b], b)) for b in cfg['CH']) + ' else { Choice::Unknown }\n}')
+    if cfg['CH']:
+        A('pub open spec fn %sch(k: int, a: %s, b: %s) -> Choice {\n    ' % (P, T, T) + ' else '.join('if k == %d { %s }' % (k_of(b), fill(cfg['CH'][b], b)) for b in cfg['CH']) + ' else { Choice::Unknown }\n}')
     A('''pub struct @P@St { pub slots: Seq<@T@>, pub outs: Seq<@T@>, pub ch: Seq<Choice>, pub k: int, pub simp: bool }
 pub open spec fn @P@mk(slots: Seq<@T@>, outs: Seq<@T@>, ch: Seq<Choice>, k: int, simp: bool) -> @P@St { @P@St { slots, outs, ch, k, simp } }
 pub open spec fn @P@set(s: @P@St, o: int, v: @T@) -> @P@St { @P@St { slots: s.slots.update(o, v), outs: s.outs, ch: s.ch, k: s.k, simp: s.simp } }
@@ -382,83 +423,110 @@ IV_CH_METHODS = {'min_choice': 'Min', 'max_choice': 'Max', 'and_choice': 'And', 
 IV_OPS = [('Add', 'add', 'Interval', 'Add'), ('Sub', 'sub', 'Interval', 'Sub'), ('Mul', 'mul', 'Interval', 'Mul'), ('Div', 'div', 'Interval', 'Div')]
 
 
-def interval_env(bases, sigs):
-    """Interval as seen by the interpreter: a Copy struct with one external_body stub per method/operator the interpreter
-    calls.  `sigs` maps method name -> real signature text cut out of types/interval.rs."""
+def type_env(T, pre, title, bases, sigs, un_methods, bin_methods, ch_methods, static_compare):
+    """A data type as seen by an interpreter: a Copy struct with one external_body stub per method/operator the interpreter
+    calls.  `sigs` maps method name -> real signature text cut out of the type's source file."""
+    import re as _re
     k = lambda b: bases.index(b)
     L = []
     A = L.append
-    A('''// =================== Interval, as the interpreter sees it (stubs with the real signatures; each is an assumption) ===================
-pub struct Interval { pub lower: f32, pub upper: f32 }
-impl Clone for Interval { fn clone(&self) -> (r: Self) ensures r == *self { *self } }
-impl Copy for Interval {}
-pub uninterp spec fn iv_un(k: int, x: Interval) -> Interval;
-pub uninterp spec fn iv_bin(k: int, a: Interval, b: Interval) -> Interval;
-pub uninterp spec fn iv_chf(k: int, a: Interval, b: Interval) -> (Interval, Choice);
-pub uninterp spec fn iv_from(x: f32) -> Interval;
-pub uninterp spec fn iv_scale(a: Interval, x: f32) -> Interval;
-pub uninterp spec fn into_iv<T>(x: T) -> Interval;
-/// AX-into: `Into<Interval>` is the identity on Interval (std blanket impl) and `Interval::from` on f32
-pub proof fn ax_into_iv()
-    ensures forall|a: Interval| #[trigger] into_iv::<Interval>(a) == a, forall|x: f32| #[trigger] into_iv::<f32>(x) == iv_from(x),
-{ admit(); }
-impl FromSpecImpl<f32> for Interval {
+    A(("""// =================== @T@, as the interpreter sees it (stubs with the real signatures; each is an assumption) ===================
+pub struct @T@ { """ + title + """ }
+impl Clone for @T@ { fn clone(&self) -> (r: Self) ensures r == *self { *self } }
+impl Copy for @T@ {}
+pub uninterp spec fn @p@_un(k: int, x: @T@) -> @T@;
+pub uninterp spec fn @p@_bin(k: int, a: @T@, b: @T@) -> @T@;
+pub uninterp spec fn @p@_chf(k: int, a: @T@, b: @T@) -> (@T@, Choice);
+pub uninterp spec fn @p@_from(x: f32) -> @T@;
+pub uninterp spec fn @p@_scale(a: @T@, x: f32) -> @T@;
+impl FromSpecImpl<f32> for @T@ {
     open spec fn obeys_from_spec() -> bool { true }
-    open spec fn from_spec(e: f32) -> Self { iv_from(e) }
+    open spec fn from_spec(e: f32) -> Self { @p@_from(e) }
 }
-impl From<f32> for Interval {
+impl From<f32> for @T@ {
     #[verifier::external_body]
     fn from(f: f32) -> (r: Self) { unimplemented!() }
-}''')
+}""").replace('@T@', T).replace('@p@', pre))
+    if static_compare:
+        A("""pub uninterp spec fn into_@p@<T>(x: T) -> @T@;
+/// AX-into: `Into<@T@>` is the identity on @T@ (std blanket impl) and `@T@::from` on f32
+pub proof fn ax_into_@p@()
+    ensures forall|a: @T@| #[trigger] into_@p@::<@T@>(a) == a, forall|x: f32| #[trigger] into_@p@::<f32>(x) == @p@_from(x),
+{ admit(); }""".replace('@T@', T).replace('@p@', pre))
     for tr, m, rhs, base in IV_OPS:
-        A('''impl %sSpecImpl<%s> for Interval {
+        A(("""impl %sSpecImpl<@T@> for @T@ {
     open spec fn obeys_%s_spec() -> bool { true }
-    open spec fn %s_req(self, rhs: %s) -> bool { true }
-    open spec fn %s_spec(self, rhs: %s) -> Interval { iv_bin(%d, self, rhs) }
+    open spec fn %s_req(self, rhs: @T@) -> bool { true }
+    open spec fn %s_spec(self, rhs: @T@) -> @T@ { @p@_bin(%d, self, rhs) }
 }
-impl std::ops::%s<%s> for Interval {
-    type Output = Interval;
+impl std::ops::%s<@T@> for @T@ {
+    type Output = @T@;
     #[verifier::external_body]
-    fn %s(self, rhs: %s) -> Interval { unimplemented!() }
-}''' % (tr, rhs, m, m, rhs, m, rhs, k(base), tr, rhs, m, rhs))
-    A('''impl MulSpecImpl<f32> for Interval {
+    fn %s(self, rhs: @T@) -> @T@ { unimplemented!() }
+}""" % (tr, m, m, m, k(base), tr, m)).replace('@T@', T).replace('@p@', pre))
+    A(("""impl MulSpecImpl<f32> for @T@ {
     open spec fn obeys_mul_spec() -> bool { true }
     open spec fn mul_req(self, rhs: f32) -> bool { true }
-    open spec fn mul_spec(self, rhs: f32) -> Interval { iv_scale(self, rhs) }
+    open spec fn mul_spec(self, rhs: f32) -> @T@ { @p@_scale(self, rhs) }
 }
-impl std::ops::Mul<f32> for Interval {
-    type Output = Interval;
+impl std::ops::Mul<f32> for @T@ {
+    type Output = @T@;
     #[verifier::external_body]
-    fn mul(self, rhs: f32) -> Interval { unimplemented!() }
+    fn mul(self, rhs: f32) -> @T@ { unimplemented!() }
 }
-impl NegSpecImpl for Interval {
+impl NegSpecImpl for @T@ {
     open spec fn obeys_neg_spec() -> bool { true }
     open spec fn neg_req(self) -> bool { true }
-    open spec fn neg_spec(self) -> Interval { iv_un(%d, self) }
+    open spec fn neg_spec(self) -> @T@ { @p@_un(%d, self) }
 }
-impl std::ops::Neg for Interval {
-    type Output = Interval;
+impl std::ops::Neg for @T@ {
+    type Output = @T@;
     #[verifier::external_body]
-    fn neg(self) -> Interval { unimplemented!() }
+    fn neg(self) -> @T@ { unimplemented!() }
 }
-impl Interval {''' % k('Neg'))
-    import re as _re
-    for m, b in IV_UN_METHODS.items():
+impl @T@ {""" % k('Neg')).replace('@T@', T).replace('@p@', pre))
+    for m, b in un_methods.items():
         sig = sigs[m]
         recv = '*self' if '&self' in sig else 'self'
-        A('    #[verifier::external_body]\n    pub %s -> (r: Interval) ensures r == iv_un(%d, %s) { unimplemented!() }' % (sig, k(b), recv))
-    for m, b in IV_BIN_METHODS.items():
+        A('    #[verifier::external_body]\n    pub %s -> (r: %s) ensures r == %s_un(%d, %s) { unimplemented!() }' % (sig, T, pre, k(b), recv))
+    for m, b in bin_methods.items():
         sig = sigs[m]
         recv = '*self' if '&self' in sig else 'self'
         arg = _re.search(r',\s*(\w+):', sig).group(1)
-        A('    #[verifier::external_body]\n    pub %s -> (r: Interval) ensures r == iv_bin(%d, %s, %s) { unimplemented!() }' % (sig, k(b), recv, arg))
-    for m, b in IV_CH_METHODS.items():
+        A('    #[verifier::external_body]\n    pub %s -> (r: %s) ensures r == %s_bin(%d, %s, %s) { unimplemented!() }' % (sig, T, pre, k(b), recv, arg))
+    for m, b in ch_methods.items():
         sig = sigs[m]
         arg = _re.search(r',\s*(\w+):', sig).group(1)
-        A('    #[verifier::external_body]\n    pub %s -> (r: (Interval, Choice)) ensures r == iv_chf(%d, self, %s) { unimplemented!() }' % (sig, k(b), arg))
-    A('    #[verifier::external_body]\n    pub %s -> (r: Interval) ensures r == iv_bin(%d, into_iv(lhs), into_iv(rhs)) { unimplemented!() }' % (sigs['compare'], k('Compare')))
+        A('    #[verifier::external_body]\n    pub %s -> (r: (%s, Choice)) ensures r == %s_chf(%d, self, %s) { unimplemented!() }' % (sig, T, pre, k(b), arg))
+    if static_compare:
+        A('    #[verifier::external_body]\n    pub %s -> (r: %s) ensures r == %s_bin(%d, into_%s(lhs), into_%s(rhs)) { unimplemented!() }' % (sigs['compare'], T, pre, k('Compare'), pre, pre))
     A('}')
     return '\n'.join(L)
+
+
+def interval_env(bases, sigs):
+    return type_env('Interval', 'iv', 'pub lower: f32, pub upper: f32', bases, sigs, IV_UN_METHODS, IV_BIN_METHODS, IV_CH_METHODS, True)
+
+
+# Grad evaluation: same scheme; the VM gradient evaluator calls plain min/max/and/or (no choices), `one / x` for Recip and
+# `s * s` for Square
+G_UN_METHODS = {'abs': 'Abs', 'sqrt': 'Sqrt', 'floor': 'Floor', 'ceil': 'Ceil', 'round': 'Round', 'sin': 'Sin', 'cos': 'Cos', 'tan': 'Tan',
+                'asin': 'Asin', 'acos': 'Acos', 'atan': 'Atan', 'exp': 'Exp', 'ln': 'Ln', 'not': 'Not', 'rand': 'Rand'}
+G_BIN_METHODS = {'atan2': 'Atan', 'rem_euclid': 'Mod', 'mix': 'Mix', 'compare': 'Compare', 'min': 'Min', 'max': 'Max', 'and': 'And', 'or': 'Or'}
+
+
+def grad_env(bases, sigs):
+    return type_env('Grad', 'gd', 'pub v: f32, pub dx: f32, pub dy: f32, pub dz: f32', bases, sigs, G_UN_METHODS, G_BIN_METHODS, {}, False)
+
+
+def make_bulk_grad(sigs):
+    un = {b: 'gd_un(@K@, x)' for b in G_UN_METHODS.values()}
+    un['Neg'] = 'gd_un(@K@, x)'
+    un['Recip'] = 'gd_bin(%DIV%, gd_from(1.0f32), x)'
+    un['Square'] = 'gd_bin(%MUL%, x, x)'
+    bn = {b: 'gd_bin(@K@, a, b)' for b in list(G_BIN_METHODS.values()) + ['Add', 'Sub', 'Mul', 'Div']}
+    return {'ev': 'VmGradSliceEval', 'T': 'Grad', 'p': 'g_', 'UN': un, 'BIN': bn, 'CH': {}, 'imm': 'gd_from(imm)',
+            'VARIANT': {'MulRegImm': 'gd_scale(@A@, imm)'}, 'prelude': lambda bases: grad_env(bases, sigs), 'envproof': '', 'envinv': '', 'own_sem': True}
 
 
 def make_interval(sigs):
@@ -474,3 +542,176 @@ def make_interval(sigs):
             'prelude': lambda bases: interval_env(bases, sigs),
             'envproof': 'ax_into_iv();',
             'envinv': 'forall|a: Interval| #[trigger] into_iv::<Interval>(a) == a, forall|x: f32| #[trigger] into_iv::<f32>(x) == iv_from(x),'}
+
+
+BULK_ENV = r"""
+// =================== environment of the bulk interpreters ===================
+impl FromSpecImpl<BulkArgError> for BulkEvalError {
+    open spec fn obeys_from_spec() -> bool { true }
+    open spec fn from_spec(e: BulkArgError) -> Self { BulkEvalError(e) }
+}
+impl From<BulkArgError> for BulkEvalError {
+    fn from(e: BulkArgError) -> (r: Self) { BulkEvalError(e) }
+}
+pub assume_specification<T, A: core::alloc::Allocator, F: FnMut() -> T>[ Vec::<T, A>::resize_with ](v: &mut Vec<T, A>, new_len: usize, f: F)
+    ensures final(v)@.len() == new_len;
+impl VarMap {
+    /// stub of the real function (iterator adapters); contract: on Ok there are enough slices and all have one length
+    #[verifier::external_body]
+    pub fn check_bulk_arguments<T>(&self, vars: &[Vec<T>]) -> (r: Result<(), BulkArgError>)
+        ensures r is Ok ==> (vars@.len() >= self.len_spec() && forall|i: int| 0 <= i < vars@.len() ==> (#[trigger] vars@[i])@.len() == vars@[0]@.len())
+    { unimplemented!() }
+}
+/// R-copyprefix: `dst[0..n].copy_from_slice(src)` (std: panics unless both lengths are n; then copies element by element)
+pub fn copy_prefix<T: Copy>(dst: &mut Vec<T>, src: &[T], n: usize)
+    requires old(dst)@.len() >= n, src@.len() == n
+    ensures final(dst)@.len() == old(dst)@.len(),
+        forall|j: int| 0 <= j < n ==> final(dst)@[j] == src@[j],
+        forall|j: int| n <= j < old(dst)@.len() ==> final(dst)@[j] == old(dst)@[j],
+{
+    let mut j: usize = 0;
+    while j < n
+        invariant 0 <= j <= n, dst@.len() == old(dst)@.len(), dst@.len() >= n, src@.len() == n,
+            forall|q: int| 0 <= q < j ==> dst@[q] == src@[q],
+            forall|q: int| j <= q < dst@.len() ==> dst@[q] == old(dst)@[q],
+        decreases n - j
+    {
+        dst[j] = src[j];
+        j += 1;
+    }
+}
+"""
+
+BULK_POINT = {'ev': 'VmFloatSliceEval', 'T': 'f32', 'p': 'p_', 'envproof': '', 'envinv': ''}
+
+BULK_SHARED = r"""
+// =================== bulk evaluation: column j of the slot matrix is a point state ===================
+pub open spec fn col<T>(s: Seq<Vec<T>>, j: int) -> Seq<T> { Seq::new(s.len(), |r: int| s[r]@[j]) }
+pub open spec fn bsize<T>(vars: Seq<Vec<T>>) -> int { if vars.len() > 0 { vars[0]@.len() as int } else { 0 } }
+pub open spec fn brect<T>(s: Seq<Vec<T>>, n: int, size: int) -> bool { s.len() == n && forall|r: int| 0 <= r < n ==> (#[trigger] s[r])@.len() == size }
+"""
+
+BULK_KIND = r"""
+pub open spec fn @P@cst(s: Seq<Vec<@T@>>, o: Seq<Vec<@T@>>, j: int) -> @P@St { @P@mk(col(s, j), col(o, j), Seq::empty(), 0, false) }
+/// bulk invariant: after n executed ops, every column is the point run of that column
+pub open spec fn @P@binv(t: Seq<RegOp>, n: nat, s0: Seq<Vec<@T@>>, o0: Seq<Vec<@T@>>, s: Seq<Vec<@T@>>, o: Seq<Vec<@T@>>, vars: Seq<Vec<@T@>>, size: int) -> bool {
+    &&& forall|j: int| 0 <= j < size ==> (#[trigger] col(s, j)) == @P@run(t, n, @P@cst(s0, o0, j), col(vars, j)).slots
+    &&& forall|j: int| 0 <= j < size ==> (#[trigger] col(o, j)) == @P@run(t, n, @P@cst(s0, o0, j), col(vars, j)).outs
+}
+/// result of a bulk evaluation: started from some matrices of the right shape, every column of the output matrix is the
+/// output vector of the point run on that column of the inputs
+pub open spec fn @P@bres(t: Seq<RegOp>, s0: Seq<Vec<@T@>>, o0: Seq<Vec<@T@>>, data: Seq<Vec<@T@>>, vars: Seq<Vec<@T@>>, ns: int, no: int, size: int) -> bool {
+    brect(s0, ns, size) && brect(o0, no, size)
+    && forall|j: int| 0 <= j < size ==> (#[trigger] col(data, j)) == @P@run(t, t.len(), @P@cst(s0, o0, j), col(vars, j)).outs
+}
+/// the step function reads and writes only slots and outputs
+pub proof fn lemma_@P@step_indep(op: RegOp, a: @P@St, b: @P@St, inp: Seq<@T@>)
+    requires a.slots == b.slots, a.outs == b.outs
+    ensures @P@step(op, a, inp).slots == @P@step(op, b, inp).slots, @P@step(op, a, inp).outs == @P@step(op, b, inp).outs
+{
+}
+/// one arm of the bulk interpreter: if every element of the new matrices is what the point step yields on the column of the
+/// old matrices, the bulk invariant advances by one op
+pub proof fn lemma_@P@bulk_arm(t: Seq<RegOp>, n: nat, op: RegOp, s0: Seq<Vec<@T@>>, o0: Seq<Vec<@T@>>, ps: Seq<Vec<@T@>>, po: Seq<Vec<@T@>>,
+                               ns_: Seq<Vec<@T@>>, no_: Seq<Vec<@T@>>, vars: Seq<Vec<@T@>>, ns: int, no: int, size: int)
+    requires
+        n < t.len(), op == t[t.len() - (n + 1)],
+        brect(ps, ns, size), brect(po, no, size), brect(ns_, ns, size), brect(no_, no, size),
+        @P@binv(t, n, s0, o0, ps, po, vars, size),
+        forall|r: int, j: int| 0 <= r < ns && 0 <= j < size ==> (#[trigger] ns_[r]@[j]) == @P@step(op, @P@cst(ps, po, j), col(vars, j)).slots[r],
+        forall|r: int, j: int| 0 <= r < no && 0 <= j < size ==> (#[trigger] no_[r]@[j]) == @P@step(op, @P@cst(ps, po, j), col(vars, j)).outs[r],
+        forall|j: int| 0 <= j < size ==> (#[trigger] @P@step(op, @P@cst(ps, po, j), col(vars, j))).slots.len() == ns && @P@step(op, @P@cst(ps, po, j), col(vars, j)).outs.len() == no,
+    ensures @P@binv(t, (n + 1) as nat, s0, o0, ns_, no_, vars, size)
+{
+    assert forall|j: int| 0 <= j < size implies (#[trigger] col(ns_, j)) == @P@run(t, (n + 1) as nat, @P@cst(s0, o0, j), col(vars, j)).slots by {
+        let prev = @P@run(t, n, @P@cst(s0, o0, j), col(vars, j));
+        assert(col(ps, j) == prev.slots);
+        assert(col(po, j) == prev.outs);
+        lemma_@P@step_indep(op, @P@cst(ps, po, j), prev, col(vars, j));
+        let st = @P@step(op, prev, col(vars, j));
+        assert(col(ns_, j) =~= st.slots);
+    }
+    assert forall|j: int| 0 <= j < size implies (#[trigger] col(no_, j)) == @P@run(t, (n + 1) as nat, @P@cst(s0, o0, j), col(vars, j)).outs by {
+        let prev = @P@run(t, n, @P@cst(s0, o0, j), col(vars, j));
+        assert(col(ps, j) == prev.slots);
+        assert(col(po, j) == prev.outs);
+        lemma_@P@step_indep(op, @P@cst(ps, po, j), prev, col(vars, j));
+        let st = @P@step(op, prev, col(vars, j));
+        assert(col(no_, j) =~= st.outs);
+    }
+}
+"""
+
+BULK_SPECS = {
+ 'BulkVmEval::resize_slots': (None, """
+        ensures brect(final(self).slots@, tape.asm.slot_count as int, size as int), brect(final(self).out@, tape.ssa.output_count as int, size as int),
+"""),
+ 'BulkOutput::new': ('r: Self', """
+        ensures *r.data == *data, r.len == len
+"""),
+}
+
+BULK_EVAL_SPEC = """
+        requires tape_ok(*tape.0)
+        ensures
+            // shape of the result: one row per output, `size` samples each (size = length of the first input slice)
+            r is Ok ==> r->Ok_0.len == bsize(vars@) && brect(r->Ok_0.data@, tape.0.ssa.output_count as int, bsize(vars@)),
+            // every column is the point run of the reference step function on that column of the inputs
+            r is Ok ==> exists|s0: Seq<Vec<@T@>>, o0: Seq<Vec<@T@>>| #[trigger] @P@bres(tape.0.asm.tape@, s0, o0, r->Ok_0.data@, vars@,
+                                tape.0.asm.slot_count as int, tape.0.ssa.output_count as int, bsize(vars@)),
+"""
+
+BULK_FN_START = """        let ghost t = tape.asm.tape@;
+        let ghost ns = tape.asm.slot_count as int;
+        let ghost no = tape.ssa.output_count as int;
+        let ghost nv = tape.vars.len_spec() as int;
+        let ghost s0 = self.0.slots@;
+        let ghost o0 = self.0.out@;
+        proof { ax_float_total(); @ENVPROOF@
+            assert(@P@binv(t, 0, s0, o0, s0, o0, vars@, size as int));
+        }"""
+
+BULK_OUTER_INV = """            invariant
+                0 <= i_ <= t.len(), brect(self.0.slots@, ns, size as int), brect(self.0.out@, no, size as int),
+                @P@binv(t, (t.len() - i_) as nat, s0, o0, self.0.slots@, self.0.out@, vars@, size as int),
+            decreases i_"""
+
+BULK_AFTER_OP = """            proof {
+                assert(op_ok(t[i_ as int], ns, no, nv));
+            }
+            let ghost ps = self.0.slots@;
+            let ghost po = self.0.out@;
+            let ghost d_ = dst_slot(op);"""
+
+BULK_INNER_INV = """                        invariant
+                            brect(self.0.slots@, ns, size as int), self.0.out@ == po,
+                            forall|r: int| 0 <= r < ns && r != d_ ==> self.0.slots@[r] == ps[r],
+                            forall|j: int| 0 <= j < i ==> (#[trigger] self.0.slots@[d_]@[j]) == @P@step(op, @P@cst(ps, po, j), col(vars@, j)).slots[d_],
+                            forall|j: int| i <= j < size ==> (#[trigger] self.0.slots@[d_]@[j]) == ps[d_]@[j],"""
+
+BULK_ARM_END = """                    proof {
+                        lemma_@P@bulk_arm(t, (t.len() - i_ - 1) as nat, op, s0, o0, ps, po, self.0.slots@, self.0.out@, vars@, ns, no, size as int);
+                    }"""
+
+BULK_TAIL = """        proof {
+            assert(size == bsize(vars@));
+            assert(@P@bres(tape0.0.asm.tape@, s0, o0, self.0.out@, vars@, tape0.0.asm.slot_count as int, tape0.0.ssa.output_count as int, bsize(vars@)));
+        }"""
+
+BULK_OUTPUT_HINT = """                    proof {
+                        assert(self.0.slots@ == ps);
+                        assert forall|r: int| 0 <= r < no && r != i implies self.0.out@[r] == po[r] by {}
+                        assert forall|j: int| 0 <= j < size implies self.0.out@[i as int]@[j] == ps[arg as int]@[j] by {
+                            assert(ps[arg as int]@.subrange(0, size as int)[j] == ps[arg as int]@[j]);
+                        }
+                    }"""
+
+BULK_TAIL2 = """        proof {
+            assert(ret_->Ok_0.data@ == self.0.out@);
+            assert(exists|a0: Seq<Vec<@T@>>, b0: Seq<Vec<@T@>>| #[trigger] @P@bres(tape0.0.asm.tape@, a0, b0, ret_->Ok_0.data@, vars@,
+                       tape0.0.asm.slot_count as int, tape0.0.ssa.output_count as int, bsize(vars@)));
+        }"""
+
+RESIZE_INV = """            invariant 0 <= j_ <= self.@F@.len(), self.@F@.len() == @N@, self.@G@@ == @GV@,
+                forall|k: int| 0 <= k < j_ ==> (#[trigger] self.@F@@[k])@.len() == size,
+            decreases self.@F@.len() - j_"""
